@@ -220,10 +220,23 @@ def other_decompile_paths(ctx, label, data, o, names):
     from fickling import tracing
     f = de.fickle()
     agg = ctx.agg
-    for path in ("trace", "interpreter", "interpret-static", "stepped-by-hand"):
+    for path in ("trace", "interpreter", "interpret-static", "stepped-by-hand", "after-safety-check", "tree-held-across-check"):
         try:
             interp = f.Interpreter(f.Pickled.load(data))
-            if path == "trace":
+            if path in ("after-safety-check", "tree-held-across-check"):
+                # the object's decompile read after (or held across) a safety check of the same object
+                import fickling.analysis as analysis
+                pk = f.Pickled.load(data)
+                held = pk.ast if path == "tree-held-across-check" else None
+                try:
+                    analysis.check_safety(pk)
+                    str(analysis.check_safety(pk))
+                except RecursionError:
+                    return
+                except Exception:
+                    pass
+                mod = held if held is not None else pk.ast
+            elif path == "trace":
                 with contextlib.redirect_stdout(io.StringIO()):
                     mod = tracing.Trace(interp).run()
             elif path == "interpret-static":
